@@ -667,6 +667,20 @@ def fam_c06(tier, seed):
                     sc["tags"] = ["writer-chain", "unsent-body", fin, tag, "sent:%d" % sent, "pos:%d" % pos]
                     scs.append(sc)
                     k += 1
+    # a request whose streamed body has arrived (partly in the connection's read buffer) is dropped / its handler
+    # panics / it is answered after reading a part: the request behind it still gets its own, well-formed response
+    k = 0
+    for fin, pl in (("drop", lambda: drop()), ("panic", lambda: panic()), ("respond", lambda: respond(204, 0)), ("writer", lambda: writer([9], flush="last"))):
+        for tag, kw in (("cl3000", dict(framing="cl", body_len=3000)), ("cl1025", dict(framing="cl", body_len=1025)), ("cl70000", dict(framing="cl", body_len=70000)),
+                        ("ch3000", dict(framing="chunked", body_len=3000, chunks=[1000]))):
+            for upto in (0, 100, 700):
+                for nfol in (1, 2):
+                    first = Msg(method="POST", plan=_with_read(pl(), upto=upto, sizes=[512]), body_text=(nfol == 1), **kw)
+                    d, j, ln = conn([first] + [Msg(plan=respond(200, 7)) for _ in range(nfol)], 0)
+                    sc = scenario("C06-b%03d" % k, "C06", [(d, j, ln)], [serve("recv", "spawn")], horizon_ms=100)
+                    sc["tags"] = ["writer-chain", "unread-body-then-successor", fin, tag, "upto%d" % upto, "followers:%d" % nfol]
+                    scs.append(sc)
+                    k += 1
     return scs
 
 FAMILIES = {
@@ -733,13 +747,14 @@ def fam_c09(tier, seed):
         cons.append(("eof", dict(sizes=[300], to_eof=True)))
         cons.append(("zero", dict(sizes=[0])))          # a single zero-length read, then the request is finished
         cons.append(("all-zero-more", dict(sizes=[max(n, 1), 0, 300, 300])))   # every byte, a zero-length read, then more reads
+        cons.append(("std-vectored", dict(read_std="vectored")))                # read_vectored until it reports the end
         for (ctag, ckw), fin, fol in itertools.product(cons, sorted(finishes), sorted(followers)):
             if tier == "quick" and rng.random() > 0.35:
                 continue
             # the request with the body in HTTP/1.1, HTTP/1.0 keep-alive (the connection continues) or with
             # Connection: close (what follows must never be parsed)
             ver, cn = rng.choice([("1.1", None), ("1.1", None), ("1.0", "keep-alive"), ("1.1", "keep-alive"), ("1.1", "close"), ("1.0", None)])
-            first = Msg(method="POST", version=ver, conn=cn, plan=_with_read(finishes[fin](), **ckw), **kw)
+            first = Msg(method="POST", version=ver, conn=cn, plan=(dict(finishes[fin](), **ckw) if "read_std" in ckw else _with_read(finishes[fin](), **ckw)), **kw)
             d, j, ln = conn([first] + followers[fol](), 0)
             sc = scenario("C09-%04d" % k, "C09", [(d, j, ln)], _single_app(), horizon_ms=100)
             sc["tags"] = ["boundary", tag, ctag, fin, "follower:" + fol, "v%s/%s" % (ver, cn)]
@@ -792,7 +807,7 @@ def fam_c03(tier, seed):
                 # stream) in the middle of the body
                 ("zero-mid", [7, 0, 4096]),
                 # the helpers of std an application would normally use
-                ("std-read_to_end", "read_to_end"), ("std-copy", "copy"), ("std-read_to_string", "read_to_string")]
+                ("std-read_to_end", "read_to_end"), ("std-copy", "copy"), ("std-read_to_string", "read_to_string"), ("std-vectored", "vectored")]
     for tag, kw in _body_variants("thorough") + [("cl300000", dict(framing="cl", body_len=300000)),
                                                  ("ch300000", dict(framing="chunked", body_len=300000, chunks=[65536, 1, 100000]))]:
         for ptag, sizes in programs:
@@ -802,7 +817,7 @@ def fam_c03(tier, seed):
                 continue
             if ptag == "one" and kw["body_len"] > (1100 if tier == "quick" else 5000):
                 continue
-            if kw["body_len"] > 100000 and ptag not in ("kib", "huge", "zero-mid", "std-read_to_end", "std-copy", "std-read_to_string"):
+            if kw["body_len"] > 100000 and ptag not in ("kib", "huge", "zero-mid", "std-read_to_end", "std-copy", "std-read_to_string", "std-vectored"):
                 continue
             for follow, both, case in itertools.product(["none", "request", "garbage"], [False, True, "te-first"], ["std", "lower", "upper"]):
                 if both and kw["framing"] != "chunked":
@@ -901,7 +916,7 @@ def fam_c11(tier, seed):
     # the body is read to its end with one of std's helpers and the request is then kept: the successor must arrive
     # (also: a buffer sized by the declared length, read_exact of the declared length and one more read, single bytes --
     #  reads that are never larger than what is left of the body)
-    for helper in ("read_to_end", "read_to_string", "copy", "read_to_end_sized", "read_exact", "bytes"):
+    for helper in ("read_to_end", "read_to_string", "copy", "read_to_end_sized", "read_exact", "bytes", "vectored"):
         for first in ("b1025", "chunked", "b1024", "b5000"):
             if first == "chunked" and helper in ("read_to_end_sized", "read_exact"):
                 continue
@@ -911,6 +926,17 @@ def fam_c11(tier, seed):
                 d, j, ln = conn(msgs, 0)
                 sc = scenario("C11-%04d" % k, "C11", [(d, j, ln)], [{"prog": [{"op": "serve", "kind": "recv", "mode": "inline", "max_empty": 1, "ms": 0}]}], horizon_ms=100)
                 sc["tags"] = ["readahead", "std-read-helper", helper, "pipe:" + first + "+none" * nfollow]
+                scs.append(sc)
+                k += 1
+    # a large body of which little or nothing has been read when the request is answered or dropped: the successors
+    # become available once it is finished, however much of the body is left (70 KB, 300 KB, 1.2 MB)
+    for n in (70000, 300000) + ((1_200_000,) if tier == "thorough" else ()):
+        for upto in (0, 1000):
+            for fin, pl in (("respond", lambda: respond(200, 3)), ("drop", lambda: drop()), ("writer", lambda: writer([7], flush="last"))):
+                first = Msg(method="POST", framing="cl", body_len=n, plan=_with_read(pl(), upto=upto, sizes=[512]), body_text=(upto == 0))
+                d, j, ln = conn([first, Msg(), Msg()], 0)
+                sc = scenario("C11-%04d" % k, "C11", [(d, j, ln)], [{"prog": [{"op": "serve", "kind": "recv", "mode": "inline", "max_empty": 1, "ms": 0}]}], horizon_ms=100)
+                sc["tags"] = ["readahead", "large-unread-finished", "n:%d" % n, "upto%d" % upto, fin]
                 scs.append(sc)
                 k += 1
     # several application threads already blocked in recv() (the usual worker arrangement), each keeping the request
